@@ -728,6 +728,53 @@ def noise_of(kind, out, x):
     return out - x
 
 
+def vector_fixed_check(p, sc, n):
+    """Evaluate the function returned by Vector.randomise (value and gradient) at several points, several times each, in
+    different orders.  (a) every evaluation at the same point returns bit-identical results; (b) with
+    function_sensitivity 0 (Delta = 0) the noise read off EVERY evaluation, b = n·(grad − clean grad) and
+    value − clean value = b·w/n, equals the b determined by the stream (direction of the normals, norm scale·Σ gammas).
+    Returns a description of the failure or None."""
+    d = p["d"]
+    fn = quad_fn(d)
+    pts = [np.zeros(d), np.array([((-1) ** j) * (0.5 + 0.25 * j) for j in range(d)]),
+           np.array([0.3 - 0.7 * ((j * 5) % 3) for j in range(d)])]
+    order = [0, 1, 2, 1, 0, 2, 2, 0, 1]
+    # (a)
+    rng = make_rng("vec", sc)
+    try:
+        out = mk_mech("vec", dict(p, n=n), rng).randomise(fn)
+    except seams.ScriptExhausted:
+        return None
+    seen = {}
+    for k, i in enumerate(order):
+        v, g = out(pts[i].copy())
+        v, g = float(v), np.array(g, dtype=float)
+        if i in seen and not (seen[i][0] == v and np.array_equal(seen[i][1], g)):
+            return (f"evaluation #{k} of the released function at w={pts[i].tolist()} returned ({v!r}, {g.tolist()}), an earlier "
+                    f"evaluation at the same point returned ({seen[i][0]!r}, {seen[i][1].tolist()})")
+        seen.setdefault(i, (v, g))
+    # (b)
+    rng = make_rng("vec", sc)
+    out = mk_mech("vec", dict(p, n=n, fs=0.0), rng).randomise(fn)
+    nm = sc["normals"]
+    dirv = np.array([(nm[4 * i] + nm[4 * i + 1] + nm[4 * i + 2] + nm[4 * i + 3]) / 2 for i in range(d)])
+    ref_b = dirv / math.sqrt(float(np.dot(dirv, dirv))) * (2 * p["ds"] / p["eps"] * sum(sc["gammas"][:4]))
+    mag = float(np.max(np.abs(ref_b)))
+    for k, i in enumerate(order):
+        w = pts[i]
+        v, g = out(w.copy())
+        cv, cg = fn(w.copy())
+        b_k = (np.asarray(g, dtype=float) - cg) * n
+        tol = 1e-11 * mag + n * 1e-13
+        if not np.all(np.abs(b_k - ref_b) <= tol):
+            return (f"evaluation #{k} (w={w.tolist()}): noise read off the gradient n·(grad − clean) = {b_k.tolist()}, the "
+                    f"stream-determined b = {ref_b.tolist()}")
+        want = float(np.dot(ref_b, w)) / n
+        if not abs((float(v) - cv) - want) <= 1e-11 * (abs(want) + mag) + 1e-13 * (abs(cv) + 1):
+            return (f"evaluation #{k} (w={w.tolist()}): value − clean value = {float(v) - cv!r}, expected b·w/n = {want!r}")
+    return None
+
+
 def direct_checks(ctx, case, info):
     kind, p, xs, sc = case["kind"], case["params"], case["xs"], case["script"]
     runs = info["runs"]
@@ -803,6 +850,13 @@ def direct_checks(ctx, case, info):
                                   f"noise/scale differs across parameter settings for the same stream: {ua!r} at {p} "
                                   f"vs {uc!r} at {p3} (scale = calibrated closed form)")
                         return
+    # --- 2b. Vector: the noise is fixed at release — the returned function is the same function on every evaluation
+    if kind == "vec":
+        for n_ in (1, 7, 50):
+            bad = vector_fixed_check(p, sc, n_)
+            if bad:
+                violation(ctx, case, "noise-not-fixed-at-release", f"with n={n_}: {bad}", {"n": n_})
+                return
     # --- 3. truncation / folding = post-processing of the plain mechanism's output for the same stream
     if kind in ("trunc", "fold"):
         for x, rr in ok:
